@@ -347,10 +347,10 @@ def run(F, R):
         R.check("C06-R4", "setter-replaces:" + setter, got_ == "Some{param2}", "%s(x) stores Some(x) unconditionally" % setter,
                 "RequestBuilder::%s does not unconditionally store its argument (%s): a later call may keep an earlier id" % (setter, got_))
     # ---------------------------------------------------------------- R7 premise of "only while no poll interval is in force"
-    R.rule("C06-R7", "premise shared with C07-R2: every answered exchange records the server-dictated poll interval before the HTTP status is looked at (so a status failure that carries X-Retry-After ends the attempts)")
+    R.rule("C06-R7", "premises shared with C07: every answered exchange records the server-dictated poll interval before the HTTP status is looked at (C07-R2), the recorded value is the header's (C07-R1) and a change is always stored in memory whatever the storage does (C07-R4) — so a failure that carries X-Retry-After ends the attempts, now and in later checks")
     from . import c07 as _c07
     from .. import report as _report
-    _c07.run(F, _report.SubsetAlias(R, {"C07-R2": "C06-R7"}))
+    _c07.run(F, _report.SubsetAlias(R, {"C07-R2": "C06-R7", "C07-R1": "C06-R7", "C07-R4": "C06-R7"}))
     # ---------------------------------------------------------------- R6 one send per built request outside the loop
     R.rule("C06-R6", "outside the attempt loop every request value is handed to the sending function by one call site only (event reports and pings are sent once): within one function invocation no two send call sites receive the same RequestBuilder value")
     sends = [n for n in S.nodes if n.idx in S.live and n.term["k"] == "call" and (n.term.get("name") == "do_omaha_request_and_update_context") and not smod.is_logging_span(n.term["sp"])]
